@@ -1658,6 +1658,8 @@ class Interp:
             return ('boundmethod', base, attr)
         if isinstance(base, (list, dict)) and attr in ('append', 'extend', 'insert', 'pop', 'copy', 'keys', 'values', 'items', 'get', 'update', 'clear', 'index', 'remove', 'reverse', 'setdefault'):
             return ('boundmethod', base, attr)
+        if isinstance(base, set) and attr in ('add', 'discard', 'remove', 'update', 'clear', 'copy', 'pop', 'union', 'intersection', 'difference', 'issubset', 'issuperset'):
+            return ('boundmethod', base, attr)
         return TOP
 
     def ev_Subscript(self, n, s):
@@ -2400,6 +2402,17 @@ class Interp:
                     return getattr(recv, meth)(*args, **kwargs)
                 except Exception:
                     return TOP
+            return TOP
+        if isinstance(recv, set):
+            if all(is_concrete(a) for a in args) and not kwargs:
+                try:
+                    return getattr(recv, meth)(*args)
+                except KeyError:
+                    self._pending_exc = 'KeyError'
+                    return TOP
+                except TypeError:
+                    pass
+            self.imprecise.append('set.%s with arguments that are not modelled: its effect is lost' % meth)
             return TOP
         if isinstance(recv, list):
             if meth == 'append' and len(args) == 1:
